@@ -469,6 +469,46 @@ fn is_ws_crate(name: &str) -> bool {
 	name == "grin" || name.starts_with("grin_")
 }
 
+/// A generic argument list mentions a workspace type, closure, fn item or trait object: an upstream (std / third-party)
+/// generic function instantiated with it can call back into workspace code (`Iterator::collect::<IteratingReader<..>>` runs
+/// `<IteratingReader as Iterator>::next`), so its body is walked too (recorded with `"ext":true`).
+fn mentions_ws<'tcx>(tcx: TyCtxt<'tcx>, args: ty::GenericArgsRef<'tcx>) -> bool {
+	for ga in args.iter() {
+		for inner in ga.walk() {
+			if let Some(t) = inner.as_type() {
+				let did = match t.kind() {
+					ty::Adt(def, _) => Some(def.did()),
+					ty::Closure(d, _) | ty::FnDef(d, _) => Some(*d),
+					ty::Dynamic(preds, ..) => preds.principal_def_id(),
+					_ => None,
+				};
+				if let Some(d) = did {
+					if is_ws_crate(&krate_of(tcx, d)) {
+						return true;
+					}
+				}
+			}
+		}
+	}
+	false
+}
+
+/// Stable, compact id of an instance within one session (the Debug rendering of deeply nested future/closure types runs to megabytes).
+fn inst_id<'tcx>(i: &Instance<'tcx>) -> String {
+	use std::hash::{Hash, Hasher};
+	let s = format!("{:?}", i);
+	if s.len() <= 240 {
+		return s;
+	}
+	let mut h = std::collections::hash_map::DefaultHasher::new();
+	s.hash(&mut h);
+	let mut cut = 160;
+	while !s.is_char_boundary(cut) {
+		cut -= 1;
+	}
+	format!("{}..#{:016x}", &s[..cut], h.finish())
+}
+
 /// Instantiated call graph: walk concrete instances starting from all non-generic local fns.
 /// Edges: direct calls (resolved through `Instance::try_resolve`), closures created in the body
 /// (a created closure may run), fn items used as values (reified), and for virtual calls every
@@ -487,9 +527,10 @@ fn walk_instances<'tcx>(tcx: TyCtxt<'tcx>, out: &mut String) {
 		}
 		q.push_back(Instance::mono(tcx, did));
 	}
+	let walk_ext = std::env::var("MIRFACTS_NO_EXT").is_err();
 	let mut n = 0usize;
 	while let Some(inst) = q.pop_front() {
-		let key = format!("{:?}", inst);
+		let key = inst_id(&inst);
 		if !seen.insert(key.clone()) {
 			continue;
 		}
@@ -516,12 +557,12 @@ fn walk_instances<'tcx>(tcx: TyCtxt<'tcx>, out: &mut String) {
 						"[{},{},{},{},{},{},\"reify\"]",
 						b,
 						esc(&path_of(tcx, ci.def_id())),
-						esc(&format!("{:?}", ci)),
+						esc(&inst_id(&ci)),
 						matches!(ci.def, ty::InstanceKind::Virtual(..)),
 						esc(&stable_of(tcx, ci.def_id())),
 						span_json(tcx, sp)
 					));
-					if is_ws_crate(&krate_of(tcx, ci.def_id())) {
+					if is_ws_crate(&krate_of(tcx, ci.def_id())) || (walk_ext && mentions_ws(tcx, ci.args)) {
 						q.push_back(ci);
 					}
 				}
@@ -547,7 +588,7 @@ fn walk_instances<'tcx>(tcx: TyCtxt<'tcx>, out: &mut String) {
 									"[{},{},{},false,{},{},\"closure\"]",
 									b.index(),
 									esc(&path_of(tcx, *cdid)),
-									esc(&format!("{:?}", ci)),
+									esc(&inst_id(&ci)),
 									esc(&stable_of(tcx, *cdid)),
 									span_json(tcx, st.source_info.span)
 								));
@@ -610,7 +651,7 @@ fn walk_instances<'tcx>(tcx: TyCtxt<'tcx>, out: &mut String) {
 								"[{},{},{},{},{},{},\"call\"]",
 								b.index(),
 								esc(&path_of(tcx, ci.def_id())),
-								esc(&format!("{:?}", ci)),
+								esc(&inst_id(&ci)),
 								virt,
 								esc(&stable_of(tcx, ci.def_id())),
 								span_json(tcx, fn_span)
@@ -624,7 +665,7 @@ fn walk_instances<'tcx>(tcx: TyCtxt<'tcx>, out: &mut String) {
 										}
 										if let Some(mid) = tcx.impl_item_implementor_ids(imp).get(&ci.def_id()) {
 											let generic = tcx.generics_of(*mid).requires_monomorphization(tcx);
-											let id = if generic { "?".to_string() } else { format!("{:?}", Instance::mono(tcx, *mid)) };
+											let id = if generic { "?".to_string() } else { inst_id(&Instance::mono(tcx, *mid)) };
 											edges.push(format!(
 												"[{},{},{},false,{},{},\"cha\"]",
 												b.index(),
@@ -639,7 +680,7 @@ fn walk_instances<'tcx>(tcx: TyCtxt<'tcx>, out: &mut String) {
 										}
 									}
 								}
-							} else if is_ws_crate(&krate_of(tcx, ci.def_id())) {
+							} else if is_ws_crate(&krate_of(tcx, ci.def_id())) || (walk_ext && mentions_ws(tcx, ci.args)) {
 								q.push_back(ci);
 							}
 						}
@@ -664,7 +705,8 @@ fn walk_instances<'tcx>(tcx: TyCtxt<'tcx>, out: &mut String) {
 		}
 		let _ = write!(
 			out,
-			"{{\"t\":\"inst\",\"id\":{},\"key\":{},\"skey\":{},\"edges\":[{}],\"asserts\":[{}]}}\n",
+			"{{\"t\":\"inst\",\"ext\":{},\"id\":{},\"key\":{},\"skey\":{},\"edges\":[{}],\"asserts\":[{}]}}\n",
+			!is_ws_crate(&krate_of(tcx, did)),
 			esc(&key),
 			esc(&path_of(tcx, did)),
 			esc(&stable_of(tcx, did)),
